@@ -392,6 +392,10 @@ def distribution(cases):
             d["retry_exhausted_runs"] += 1
         if any(not s["pre"] for s in c["steps"]):
             d["unmet_precondition_runs"] += 1
+        if any(len(s.get("pres") or []) > 1 for s in c["steps"]):
+            d["multi_precondition_runs"] = d.get("multi_precondition_runs", 0) + 1
+            if any(len(s.get("pres") or []) > 1 and not s["pres"][0] and s["pres"][-1] for s in c["steps"]):
+                d["unmet_then_met_precondition_runs"] = d.get("unmet_then_met_precondition_runs", 0) + 1
         if any(s["sfail"] for s in c["steps"]):
             d["setup_failure_runs"] += 1
         if c["final"] and any(any(blocks(c, x) for x in s["deps"]) for s in c["steps"]):
